@@ -123,6 +123,7 @@ def run(ctx):
                 viol(report, "C16-R1", b, "not-extractable", "%s cannot be linearised (%s): field coverage cannot be shown" % (b.qname, e))
                 continue
         ok_any = False
+        leaves = [(conds, expand_ctor_call(prog, res)) for conds, res in leaves]
         for conds, res in leaves:
             if res[0] == "variant" and res[1].split("::")[-1] not in ("Result", "Option"):
                 ok_any = True
@@ -227,6 +228,37 @@ def normalisers(prog, cg, b):
                 n = m.group(1)
                 out.add("ascii case folding" if "ascii" in n else ("case folding" if "case" in n else "trimming"))
     return out
+
+
+def _subst_args(t, actual):
+    if isinstance(t, tuple):
+        if len(t) == 2 and t[0] == "arg" and isinstance(t[1], int) and 1 <= t[1] <= len(actual):
+            return actual[t[1] - 1]
+        return tuple(_subst_args(x, actual) for x in t)
+    if isinstance(t, list):
+        return [_subst_args(x, actual) for x in t]
+    return t
+
+
+def expand_ctor_call(prog, res, depth=0):
+    """an owned copy built through a constructor of the crate (`Self::new(a, b, c)`): replace the call by what the constructor
+    builds, so that fields the constructor fills with constants (e.g. `cache_flush: false`) are seen as such"""
+    if depth > 2 or not (isinstance(res, tuple) and res and res[0] == "call"):
+        return res
+    cid, cargs, name = res[1], res[2], res[3]
+    if re.search(r"::(into_owned|clone|to_owned|into|from)$", name):
+        return res
+    cb = prog.bodies.get(cid)
+    if cb is None or cb.crate not in ("simple_dns", "simple_mdns"):
+        return res
+    try:
+        cl = Extractor(prog, cb, stop_at_loops=False).run()
+    except NotATable:
+        return res
+    outs = [r for c, r in cl]
+    if len(outs) != 1 or outs[0][0] != "variant":
+        return res
+    return expand_ctor_call(prog, _subst_args(outs[0], list(cargs)), depth + 1)
 
 
 ELEMENT_COPY = re.compile(r"::(into_owned|clone|to_owned|into|from|to_vec|to_string)$")
